@@ -2567,9 +2567,12 @@ lyd_merge_sibling_r(struct lyd_node **first_trg, struct lyd_node *parent_trg,
                 opaq_trg->hints = opaq_src->hints;
 
                 ly_free_prefix_data(opaq_trg->format, opaq_trg->val_prefix_data);
+                opaq_trg->val_prefix_data = NULL;
                 opaq_trg->format = opaq_src->format;
-                ly_dup_prefix_data(LYD_CTX(opaq_trg), opaq_src->format, opaq_src->val_prefix_data,
-                        &opaq_trg->val_prefix_data);
+                if (opaq_src->val_prefix_data) {
+                    LY_CHECK_RET(ly_dup_prefix_data(LYD_CTX(opaq_trg), opaq_src->format, opaq_src->val_prefix_data,
+                            &opaq_trg->val_prefix_data));
+                }
             }
         } else if ((match_trg->schema->nodetype == LYS_LEAF) &&
                 ((options & LYD_MERGE_DEFAULTS) || !(sibling_src->flags & LYD_DEFAULT))) {
